@@ -330,14 +330,19 @@ static void other_case(uint64_t idx, void *vctx)
         pixman_box32_t boxes[3] = { { gx, gy, gx + 3, gy + 2 }, { gx + 2, gy + 1, gx + W, gy + 2 }, { -5, H - 1, 2, H + 4 } };
         switch (ep) {
         case 0: { epn = "fill_boxes";
-            pixman_image_fill_boxes(PIXMAN_OP_SRC, dst, &col, 3, boxes);
-            for (int y = 0; y < H; y++) for (int x = 0; x < W; x++) for (int k = 0; k < 3; k++) if (x >= boxes[k].x1 && x < boxes[k].x2 && y >= boxes[k].y1 && y < boxes[k].y2) allowed[y * W + x] = 1;
+            /* one, two or three boxes: a single box (a large one, so that it spans the gaps of a multi-rectangle clip) may take a route of its own */
+            int nb = 1 + geo % 3;
+            if (nb == 1) { epn = "fill_boxes(one large box)"; boxes[0] = (pixman_box32_t){ gx - 1, gy, gx + W, gy + H }; }
+            pixman_image_fill_boxes(PIXMAN_OP_SRC, dst, &col, nb, boxes);
+            for (int y = 0; y < H; y++) for (int x = 0; x < W; x++) for (int k = 0; k < nb; k++) if (x >= boxes[k].x1 && x < boxes[k].x2 && y >= boxes[k].y1 && y < boxes[k].y2) allowed[y * W + x] = 1;
             break; }
         case 1: { epn = "fill_rectangles(8 rects)";
             pixman_rectangle16_t r[8];
             for (int k = 0; k < 8; k++) { r[k].x = (int16_t)(gx + k * 2); r[k].y = (int16_t)(gy + (k & 1)); r[k].width = 2; r[k].height = (uint16_t)(1 + (k % 3)); }
-            pixman_image_fill_rectangles(PIXMAN_OP_SRC, dst, &col, 8, r);
-            for (int y = 0; y < H; y++) for (int x = 0; x < W; x++) for (int k = 0; k < 8; k++) if (x >= r[k].x && x < r[k].x + r[k].width && y >= r[k].y && y < r[k].y + r[k].height) allowed[y * W + x] = 1;
+            int nr = (geo % 4 == 3) ? 1 : 8;
+            if (nr == 1) { epn = "fill_rectangles(one large rect)"; r[0].x = (int16_t)(gx - 1); r[0].y = (int16_t)gy; r[0].width = (uint16_t)(W + 1); r[0].height = (uint16_t)H; }
+            pixman_image_fill_rectangles(PIXMAN_OP_SRC, dst, &col, nr, r);
+            for (int y = 0; y < H; y++) for (int x = 0; x < W; x++) for (int k = 0; k < nr; k++) if (x >= r[k].x && x < r[k].x + r[k].width && y >= r[k].y && y < r[k].y + r[k].height) allowed[y * W + x] = 1;
             break; }
         case 2: { epn = "composite_trapezoids";
             pixman_trapezoid_t t; t.top = pixman_int_to_fixed(gy) - 0x8000; t.bottom = pixman_int_to_fixed(gy + 2) + 0x4000;
